@@ -56,7 +56,7 @@ Proof. reflexivity. Qed.
 
 (* normalised-mode check, swap, persist (restore on failure), UpdateConfig, on its failure restore and persist again *)
 Lemma skel_SetReplicationModeConfig_ok : skel_SetReplicationModeConfig =
-  [Call "NormalizeReplicationMode"; IfE "config.NormalizeReplicationMode(cfg.ReplicationMode) == """"" [Ret] []; Call "GetReplicationModeConfig"; Call "SetReplicationModeConfig"; Call "Persist"; IfE "err != nil" [Call "SetReplicationModeConfig"; Ret] []; IfE "cluster != nil" [Call "UpdateConfig"; IfE "err != nil" [Call "SetReplicationModeConfig"; Call "Persist"] []; Ret] []; Ret].
+  [Call "NormalizeReplicationMode"; IfE "config.NormalizeReplicationMode(cfg.ReplicationMode) == """"" [Ret] []; Call "NormalizeReplicationMode"; Assign "cfg.ReplicationMode" "= config.NormalizeReplicationMode(cfg.ReplicationMode)"; Call "GetReplicationModeConfig"; Call "SetReplicationModeConfig"; Call "Persist"; IfE "err != nil" [Call "SetReplicationModeConfig"; Ret] []; IfE "cluster != nil" [Call "UpdateConfig"; IfE "err != nil" [Call "SetReplicationModeConfig"; Call "Persist"] []; Ret] []; Ret].
 Proof. reflexivity. Qed.
 
 (* one SaveConfig of all six sections *)
